@@ -2,6 +2,7 @@
 import numpy as np
 
 from vf import enum_graphs as eg
+from vf import ir as irm
 from vf import lite, universe, wellformed
 from vf.oracles import common
 
@@ -73,6 +74,9 @@ PLANS['sig'] = PLAN_SIG
 
 
 PLANS['chain'] = {'shipped': True, 'uniform': ['FP16', 'SRQ8s'], 'io': ['none']}
+PLANS['n4u'] = {'uniform': ['SRQ8a', 'SRQ16', 'WO8c'], 'io': ['none']}
+PLANS['star'] = {'uniform': [], 'perop': ['SRQ8a', 'SRQ8s', 'SRQ16'],
+                 'io': ['none']}
 PLAN_MULTI = {'shipped': True, 'uniform': ['SRQ8s', 'WO4c'], 'io': ['none']}
 PLANS['multi'] = PLAN_MULTI
 MULTI_TYPES = eg.TTOPO + ['CONV_2D', 'EMBEDDING_LOOKUP', 'SOFTMAX']
@@ -84,6 +88,23 @@ def cases(tier, sigrev=False, blk=True):
   for n in ((4, 5) if tier == 'quick' else (4, 5, 6)):
     for g in eg.chains(n, ['FULLY_CONNECTED', 'TANH', 'ABS'], exports='mid'):
       yield {'ir': g, 'rp': 'chain'}
+  # four-operator DAGs over two tiny alphabets (diamonds, tensors with three
+  # consumers, joins): uniform recipes only, to bound the cost
+  if tier == 'quick':
+    for types in (['FULLY_CONNECTED', 'ADD', 'TANH'],
+                  ['FULLY_CONNECTED', 'CONCATENATION', 'ABS']):
+      yield from universe.graph_cases([(4, types, 'first', 'none')],
+                                      {'rp': 'n4u'})
+  # stars: one tensor with 3-4 consumers that each ask for a different
+  # quantized form (three or four ops inserted behind the same tensor)
+  star_types = [('FULLY_CONNECTED', 'bias'), ('TANH', ''), ('ADD', 'tc')]
+  import itertools as _it
+  for k in (3, 4):
+    for combo in _it.product(star_types, repeat=k):
+      for src in (0, 1):
+        ops = ([irm.op('FULLY_CONNECTED', 'nobias', [0])] if src else []) + [
+            irm.op(t, v, [src]) for t, v in combo]
+        yield {'ir': irm.single(ops), 'rp': 'star'}
   yield from universe.multi_cases(
       MULTI_TYPES if tier == 'quick' else eg.T21 + eg.U, {'rp': 'multi'})
   for n, types, variants, exports, pname in spec(tier):
